@@ -128,6 +128,13 @@ CLAIMS = {
              'repeated calls agree; AccessRule.exclude covers subclasses and refuses primary keys.',
         note='K rules per entity is the bound. Database.to_json filtering is not covered. get_user_groups / roles / labels are stubs.',
         technique='contract on the real function vs a declarative spec, bounded exhaustive enumeration of rule sets (contract-based family, bounded stand-in)'),
+    'C07': dict(
+        text='Proof for all values of the integer codecs: round_microseconds_to_precision (floor to 10^(6-p), None iff unchanged, idempotent; every microsecond value, precision 0..6) and '
+             'the interval text codec (str2timedelta(timedelta2str(td)) == td for EVERY normal-form timedelta: symbolic days / seconds / microseconds, the text as a structured '
+             'symbolic string, shape [-]H:M:S[.ffffff]). BOUNDED (grids, counted separately): Time/Datetime/TimedeltaConverter.validate, datetime2timestamp/timestamp2datetime, SQLite '
+             'date/time/datetime/Decimal converters through the real sqlite3 engine, and a whole write-flush-reload round trip of 21 attribute types on in-memory SQLite.',
+        note='datetime.timedelta is stubbed as exact integer arithmetic; Python %d / %06d formatting facts assumed. Floating point (REAL days for SQLite intervals, float attributes) and '
+             'the wire formats of other backends are not claimed. Known finding: Decimal kept unrounded in the writing session.'),
 }
 
 _NOT_BUILT = 'within reach of the technique per DESIGN.md, check not built yet'
